@@ -1,4 +1,4 @@
-use rusty_parser::{AsBareName, Expression};
+use rusty_parser::{AsBareName, Expression, TypeQualifier};
 
 use super::expression_reducer::*;
 use crate::core::{LintErrorPos, LinterContext, binary_cast};
@@ -32,7 +32,11 @@ impl<'a> ExpressionReducer for UndefinedFunctionReducer<'a> {
                     ))
                 } else {
                     // the user_defined_function_linter already ensures that the args are valid
-                    Ok(Expression::IntegerLiteral(0))
+                    if name.qualifier() == Some(TypeQualifier::DollarString) {
+                        Ok(Expression::StringLiteral(String::new()))
+                    } else {
+                        Ok(Expression::IntegerLiteral(0))
+                    }
                 }
             }
             Expression::BuiltInFunctionCall(name, args) => Ok(Expression::BuiltInFunctionCall(
